@@ -32,6 +32,9 @@ def write_series_dir(r, tier, d, nser=None):
             if 'descr' in naming:
                 f['meta']['SeriesDescription'] = 'descr %d' % si
             ds = G.dataset_of(series, dict(f, id=k))
+            # a private block: its creator element is extracted (as `PrivateCreator`) only under --extract-private
+            ds.add_new((0x0029, 0x0010), 'LO', 'VERIF VENDOR')
+            ds.add_new((0x0029, 0x1001), 'LO', 'private text %d' % si)
             f['_path'] = 'im%03d.dcm' % k
             C18.write_ds(ds, os.path.join(d, f['_path']))
             k += 1
@@ -94,7 +97,10 @@ def api_reference(src_dir, opts):
     from dcmstack import extract
     paths = glob.glob(os.path.join(src_dir, '*.dcm'))
     gen_meta = opts.get('embed') or opts.get('dump')
-    extractor = extract.MetaExtractor() if gen_meta else extract.minimal_extractor
+    if gen_meta and opts.get('extract_private'):
+        extractor = extract.MetaExtractor((extract.ignore_pixel_data, extract.ignore_overlay_data, extract.ignore_color_lut_data))
+    else:
+        extractor = extract.MetaExtractor() if gen_meta else extract.minimal_extractor
     excl = list(dcmstack.default_key_excl_res) + opts.get('excl', [])
     incl = list(dcmstack.default_key_incl_res) + opts.get('incl', [])
     flt = dcmstack.make_key_regex_filter(excl, incl)
@@ -130,6 +136,8 @@ def argv_of(src, dest, opts):
         a += ['-t', opts['time_var']]
     if opts.get('strict'):
         a.append('--strict')
+    if opts.get('extract_private'):
+        a.append('--extract-private')
     for e in opts.get('excl', []):
         a += ['-e', e]
     for i in opts.get('incl', []):
@@ -146,6 +154,8 @@ def gen_opts(r):
                               'Echo.{0,3}Time', '^(Window|Rescale)[A-Z]'], r.randint(1, 2))
     if r.random() < 0.25:
         o['strict'] = True
+    if r.random() < 0.2:
+        o['extract_private'] = True
     if r.random() < 0.3:
         o['incl'] = r.sample(['SeriesInstanceUID', 'PatientName', 'StudyDate', '^Patient.{0,2}Position$'], 1)
     return o
@@ -166,7 +176,11 @@ def dcmstack_round(rep, r, tier, tmp):
             # every file has; embedding on, so that the effect is visible in the output
             seq[0]['excl'] = ['Echo.{0,3}Time']
             seq[0]['embed'] = True
-        seq[-1].pop('excl', None); seq[-1].pop('incl', None)
+        if ci % 3 == 1:
+            # an earlier invocation extracts private elements, the last one does not
+            seq[0]['extract_private'] = True
+            seq[0]['embed'] = True
+        seq[-1].pop('excl', None); seq[-1].pop('incl', None); seq[-1].pop('extract_private', None)
         seq[-1]['embed'] = True
         for ii, opts in enumerate(seq):
             rep.evaluations += 1
